@@ -21,7 +21,7 @@ RULE = ('Exhaustive: all ordered triples of subsets of a 5-element universe (qui
         'universes up to 2^40) built as perturbations of each other (near-equal, chains A<B<C, near-disjoint, independent). '
         'Oracle: metric axioms on the binary32 results: range, identity of indiscernibles, d=1 iff disjoint and not both empty, '
         'bit-exact symmetry, triangle inequality with slack 2^-22, width independence, strict decrease when a fresh k-mer is '
-        'added to both sets (|AuB| < 2^11). Non-trivial: the three sets are pairwise different and at least one pair overlaps; '
+        'added to both sets (asserted for |AuB| < 2^20: the two exact ratios differ by the relative amount 1/(|AuB|+1) > 2^-23, so one correct rounding to binary32 keeps them apart). Non-trivial: the three sets are pairwise different and at least one pair overlaps; '
         'enumerated triples are distinct by construction, generated ones by hash.')
 ASSUMPTIONS = ['signed arrays only hold non-negative values (documented precondition)']
 ENUMERATED = {'quick': ['all 32768 ordered triples of subsets of {0,1,7,300,32767} x 3 width assignments'],
@@ -78,7 +78,7 @@ def check_triple(np, jaccarddist, sets, dts, case, extra=None, widen=True):
 	if extra is not None:
 		for i, j in ((0, 1), (0, 2), (1, 2)):
 			A, B = set(sets[i]), set(sets[j])
-			if extra in A or extra in B or len(A | B) >= 2 ** 11:
+			if extra in A or extra in B or len(A | B) >= 2 ** 20:
 				continue
 			A2, B2 = sorted(A | {extra}), sorted(B | {extra})
 			v2 = _dist(np, jaccarddist, A2, dts[i], B2, dts[j], case)
@@ -149,9 +149,11 @@ DT_TRIPLES = [('u8', 'u8', 'u8'), ('u4', 'u4', 'u4'), ('u2', 'u2', 'u2'), ('u2',
 def triple_case(draw, tier):
 	dts = draw(st.sampled_from(DT_TRIPLES))
 	lim = min(DMAX[d] for d in dts)
-	shape = draw(st.sampled_from(['near_equal', 'chain', 'independent', 'near_disjoint', 'tiny', 'alias']))
+	shape = draw(st.sampled_from(['near_equal', 'chain', 'independent', 'near_disjoint', 'tiny', 'alias'] * 4 + ['big_near_equal']))
 	rnd = random.Random(draw(st.integers(0, 2 ** 32 - 1)))
-	if shape == 'tiny':
+	if shape == 'big_near_equal':
+		n = draw(st.sampled_from([6000, 9000, 20000, 50000]))
+	elif shape == 'tiny':
 		n = draw(st.integers(1, 8))
 	else:
 		n = draw(st.one_of(st.integers(3, 60), st.integers(3, 400), st.integers(3, 60), st.integers(400, 2000)))
@@ -166,7 +168,11 @@ def triple_case(draw, tier):
 		lim = max(DMAX[d] for d in dts)
 		U = [u for u in U if u <= lim]
 	flip = lambda s, m: sorted(set(s) ^ set(rnd.sample(U, min(m, len(U)))))
-	if shape == 'near_equal':
+	if shape == 'big_near_equal':
+		a = list(U)
+		b = flip(a, rnd.choice((1, 2, 5)))
+		c = flip(a, rnd.choice((1, 2)))
+	elif shape == 'near_equal':
 		a = [u for u in U if rnd.random() < 0.8]
 		b = flip(a, rnd.choice((1, 1, 2, 5)))
 		c = flip(b, rnd.choice((1, 1, 2, 5)))
